@@ -16,11 +16,17 @@ ASSUMPTIONS = [
     "a bare HTML() passed *as the iterable* to extend/+ and item/slice assignment are outside the statement",
 ]
 
-BAD = ["dict", "set", "bytes", "object", "complex", "module", "frozenset"]
+BAD = ["dict", "set", "bytes", "object", "complex", "module", "frozenset", "generator", "iterator", "range", "map", "dict_keys", "bytearray", "memoryview", "deque", "function", "type", "exception"]
 
 
 def mk_bad(t):
-    return {"dict": {"a": 1}, "set": {1}, "bytes": b"x", "object": object(), "complex": 1j, "module": sys, "frozenset": frozenset()}[t]
+    import collections
+
+    return {
+        "dict": lambda: {"a": 1}, "set": lambda: {1}, "bytes": lambda: b"x", "object": object, "complex": lambda: 1j, "module": lambda: sys, "frozenset": frozenset,
+        "generator": lambda: (x for x in ["g1", "g2"]), "iterator": lambda: iter(["i1"]), "range": lambda: range(3), "map": lambda: map(str, [1, 2]), "dict_keys": lambda: {"k": 1}.keys(),
+        "bytearray": lambda: bytearray(b"ba"), "memoryview": lambda: memoryview(b"mv"), "deque": lambda: collections.deque(["d"]), "function": lambda: len, "type": lambda: int, "exception": lambda: ValueError("e"),
+    }[t]()
 
 
 class _Row(tuple):
